@@ -1,2 +1,13 @@
-From Tramp Require Import Model.Base Model.Sys Props.C11.
-Print Assumptions C11_placeholder.
+From Tramp Require Import Model.Base Model.Fee Model.Classify Model.Node Model.Provider Model.Sys.
+From Tramp Require Import Proofs.SysBasics Proofs.EntryProofs Proofs.SysEntry Proofs.SysShape Proofs.SysTheorems Proofs.SysTimers Proofs.SysReach Props.C11.
+Check C11_deadline_window : forall c s i x dl,
+  reachable c s -> nth_error (lcs (pl s)) i = Some x -> l_pc x = PSelect dl -> now s < dl /\ dl <= now s + mpp_ms c.
+Check C11_at_timeout : forall c s dt en i x dl,
+  entry_ (pl s) = Some en -> nth_error (lcs (pl s)) i = Some x -> l_pc x = PSelect dl -> dl <= now s + dt ->
+  resps (snd (step c s (EvTick dt))) = map (fun h => OResp (hid h) r_tramp_fail) (listeners en) /\
+  entry_ (pl (fst (step c s (EvTick dt)))) = None /\
+  (forall cid q, ~ In (OCall cid q) (snd (step c s (EvTick dt)))).
+Print Assumptions C11_deadline_window.
+Print Assumptions C11_not_before.
+Print Assumptions C11_at_timeout.
+Print Assumptions C11_restart_bound.
